@@ -106,6 +106,37 @@ var PBObjects = func() []*PB {
 	return out
 }()
 
+// LitTexts are the parameter texts of the literal-object shapes that take one (lit.go).
+var LitTexts = map[string][]string{
+	"optional": {"", "0", "-7"},
+	"bool":     {"true", "false"},
+	"int":      {"0", "-1", "9223372036854775807", "-9223372036854775808"},
+	"uint":     {"0", "18446744073709551615"},
+	"float":    {"0", "-0", "1e308", "5e-324", "-1.7976931348623157e308", "123456789012345678901234567890", "0.1"},
+	"number": {"0", "-0", "123456789012345678901234567890123456789012345678901234567890", "1e400", "-1E-400", "0.000000000000000000000000000000000000001",
+		"1" + strings.Repeat("0", 400)},
+	"string": {"", "null", "true", "0", "-0", "[]", "{}", "[null]", `{"a":null}`, "not null at all", "nullnull", "NULL", "nil", " null ", `\u006eull`},
+	"rawmessage": {"null", " null\n", "true", "false", "0", "-0", `""`, `"null"`, "[]", "{}", "[null]", `{"a":null}`, `{"null":"null"}`, " [ null , null ] ", "1e400",
+		"123456789012345678901234567890", `"\u006eull"`},
+	"slice_of_string": {"null", "", "a null b"},
+	"map_of_string":   {"null", ""},
+}
+
+// LitObjects are the literal objects of the exhaustive part: every shape, with every parameter text of LitTexts.
+var LitObjects = func() []*Lit {
+	var out []*Lit
+	for _, sh := range LitShapes {
+		texts, ok := LitTexts[sh]
+		if !ok {
+			texts = []string{""}
+		}
+		for _, x := range texts {
+			out = append(out, &Lit{Shape: sh, Text: x})
+		}
+	}
+	return out
+}()
+
 // Messages of the exhaustive code part.
 var Messages = []string{"", "ha ha", "file does not exist", "internal system error", "a: b: c", "100%d", "\x1b", "\x1bjso", "json",
 	`{"a":1}`, "rpc error: code = OK desc = ", "日本語 😀", "\x1bjso\x1bjso n"}
@@ -280,6 +311,38 @@ func TestC19Exhaustive(t *testing.T) {
 			}
 		})
 	}
+	// literal objects (lit.go): values whose JSON text is null - through every Go shape that marshals to it -, another bare
+	// literal, an empty container, a container of nulls, a huge number, a text with the word null: every list up to depth
+	// 2 over (a plain style, a JSON-like style, an inner GRPCWrap, a Join with a side error) x coded classes x embedding
+	// level x LitObjects x (zero target of the own type only + every kind of LitIntoKinds)
+	lits := int64(0)
+	{
+		styles := []Wrap{Styles[1], Styles[3], {Kind: LGRPC}, Levels[4]}
+		intos := append([]string{""}, LitIntoKinds...)
+		thin := vstat.Pick(8, 2)
+		enum.Lists(len(styles), 2, 0, 1, func(idx []int) {
+			wraps := make([]Wrap, len(idx))
+			for i, e := range idx {
+				wraps[i] = styles[e]
+			}
+			for ci, cls := range CodedClasses {
+				if !mine() {
+					continue
+				}
+				for emb := 0; emb <= len(wraps); emb++ {
+					for oi, o := range LitObjects {
+						for ii, into := range intos {
+							if (ci+oi+ii)%thin != 0 && len(wraps) == 2 {
+								continue // depth 2: an eighth (thorough: half) of the (class, object, target) combinations per list
+							}
+							run(Case{Kind: "chain", Chain: Chain{Class: cls, Wraps: wraps, Embed: emb, Lit: o, Into: into}})
+							lits++
+						}
+					}
+				}
+			}
+		})
+	}
 	if shard == 0 {
 		for code := uint32(0); code < NumCodes; code++ {
 			for _, m := range append(append([]string{}, Messages...), RawStyles[0].Pre, RawStyles[1].Post) {
@@ -295,6 +358,7 @@ func TestC19Exhaustive(t *testing.T) {
 		"size_targets": SizeTargets, "pad_places": PadPlaces, "sized_chain_cases_this_shard": sized,
 		"raw_byte_styles": len(RawStyles), "raw_byte_objects": len(RawObjects), "extraction_target_kinds": IntoKinds, "owned_target_and_raw_byte_cases_this_shard": owned,
 		"proto_message_kinds": PBKinds, "proto_message_objects": len(PBObjects), "proto_message_target_kinds": PBIntoKinds, "proto_message_cases_this_shard": protos,
+		"literal_object_shapes": LitShapes, "literal_objects": len(LitObjects), "literal_object_target_kinds": LitIntoKinds, "literal_object_cases_this_shard": lits,
 		"batch_sizes": "2..8", "batch_cases_this_shard": batches, "twin_batch_cases_this_shard": twins, "shards": shards})
 }
 
@@ -551,6 +615,76 @@ func genPB(t *rapid.T) *PB {
 	return p
 }
 
+// genLit draws a literal object (lit.go): half of the draws go to the shapes whose JSON text is null, the parameter text
+// of a shape comes from LitTexts or is drawn (numbers of any size, strings and raw JSON texts built around the literals).
+func genLit(t *rapid.T) *Lit {
+	l := &Lit{Shape: rapid.SampledFrom(LitShapes).Draw(t, "litShape")}
+	if rapid.Bool().Draw(t, "litNull") {
+		l.Shape = rapid.SampledFrom(LitShapes[:10]).Draw(t, "litNullShape")
+	}
+	texts, ok := LitTexts[l.Shape]
+	if !ok {
+		return l
+	}
+	l.Text = rapid.SampledFrom(texts).Draw(t, "litText")
+	if !rapid.Bool().Draw(t, "litDrawn") {
+		return l
+	}
+	digit := rapid.RuneFrom([]rune("0123456789"))
+	digits := func(label string, max int) string {
+		n := rapid.IntRange(1, max).Draw(t, label+"Len")
+		d := strings.TrimLeft(rapid.StringOfN(digit, n, n, -1).Draw(t, label), "0")
+		if d == "" {
+			d = "0"
+		}
+		return d
+	}
+	number := func() string { // a JSON number literal of any size
+		n := rapid.SampledFrom([]string{"", "-"}).Draw(t, "litSign") + digits("litInt", 60)
+		if rapid.Bool().Draw(t, "litFrac") {
+			n += "." + rapid.StringOfN(digit, 1, 30, -1).Draw(t, "litFracDigits")
+		}
+		if rapid.Bool().Draw(t, "litExp") {
+			n += rapid.SampledFrom([]string{"e", "E", "e+", "e-"}).Draw(t, "litE") + digits("litExpDigits", 3)
+		}
+		return n
+	}
+	word := rapid.SampledFrom([]string{"null", "true", "false", "0", "-0", `""`, "[]", "{}", "[null]", `{"a":null}`, "nul", "ull", " ", "n", "x"})
+	switch l.Shape {
+	case "optional", "int":
+		l.Text = fmt.Sprint(rapid.Int64().Draw(t, "litInt64"))
+	case "uint":
+		l.Text = fmt.Sprint(rapid.Uint64().Draw(t, "litUint64"))
+	case "float":
+		l.Text = fmt.Sprint(rapid.Float64().Filter(func(f float64) bool { return !math.IsInf(f, 0) && !math.IsNaN(f) }).Draw(t, "litFloat"))
+	case "number":
+		l.Text = number()
+	case "string", "slice_of_string", "map_of_string":
+		l.Text = ""
+		for n := rapid.IntRange(0, 3).Draw(t, "litWords"); n > 0; n-- {
+			l.Text += word.Draw(t, "litWord")
+		}
+	case "rawmessage":
+		ws := rapid.SampledFrom([]string{"", "", " ", "\n", "\t "})
+		elem := func() string {
+			if rapid.IntRange(0, 3).Draw(t, "litElemNumber") == 0 {
+				return number()
+			}
+			return rapid.SampledFrom([]string{"null", "true", "false", "0", "-0", `""`, `"null"`, "[]", "{}", "[null]", `{"a":null}`}).Draw(t, "litElem")
+		}
+		switch rapid.IntRange(0, 3).Draw(t, "litRawForm") {
+		case 0:
+			l.Text = "[" + ws.Draw(t, "ws") + elem() + ws.Draw(t, "ws") + "," + elem() + "]"
+		case 1:
+			l.Text = `{"null"` + ws.Draw(t, "ws") + ":" + ws.Draw(t, "ws") + elem() + "}"
+		default:
+			l.Text = elem()
+		}
+		l.Text = ws.Draw(t, "ws") + l.Text + ws.Draw(t, "ws")
+	}
+	return l
+}
+
 // genTarget draws a target length: nothing (most of the time), around a power of two, or log-uniform up to ~70 KB.
 func genTarget(t *rapid.T, big int) (int, string) {
 	target := 0
@@ -627,15 +761,21 @@ func genChain(t *rapid.T, big int) Chain {
 	if rapid.IntRange(0, 3).Draw(t, "embed?") > 0 {
 		c.Embed = rapid.IntRange(0, depth).Draw(t, "embedLevel")
 		// one object in four is a generated protobuf message
-		if rapid.IntRange(0, 3).Draw(t, "proto") == 0 {
+		// ... and one in six a literal object (null through the Go shapes that marshal to it, bare literals, edge tokens)
+		switch k := rapid.IntRange(0, 11).Draw(t, "proto"); {
+		case k < 3:
 			c.PB = genPB(t)
-		} else {
+		case k < 5:
+			c.Lit = genLit(t)
+		default:
 			c.Obj = genObj(t, "obj.", 2)
 		}
 		// half of the chains with an object: the caller extracts into a target of its own and overwrites it afterwards
 		if rapid.Bool().Draw(t, "owned") {
 			if c.PB != nil {
 				c.Into = rapid.SampledFrom(PBIntoKinds).Draw(t, "into")
+			} else if c.Lit != nil {
+				c.Into = rapid.SampledFrom(LitIntoKinds).Draw(t, "into")
 			} else {
 				c.Into = rapid.SampledFrom(IntoKinds).Draw(t, "into")
 			}
@@ -679,14 +819,14 @@ func genChain(t *rapid.T, big int) Chain {
 		}
 		return c
 	}
-	if big > 0 && c.Embed >= 0 && c.PB == nil && rapid.IntRange(0, 19).Draw(t, "objSize") == 0 {
+	if big > 0 && c.Embed >= 0 && c.Obj != nil && rapid.IntRange(0, 19).Draw(t, "objSize") == 0 {
 		// the object's JSON text ends around a multiple of 512
 		c.ObjTarget = 512*rapid.IntRange(1, 16).Draw(t, "objBlocks") + rapid.IntRange(-8, 2).Draw(t, "objDelta")
 		c.Pad = rapid.SampledFrom([]string{"obj.s", "obj.l", "obj.x"}).Draw(t, "objPad")
 		return c
 	}
 	c.Target, c.Pad = genTarget(t, big)
-	if c.PB != nil && strings.HasPrefix(c.Pad, "obj.") {
+	if (c.PB != nil || c.Lit != nil) && strings.HasPrefix(c.Pad, "obj.") {
 		c.Pad = "post:0" // a generated message has no padding place: the padding goes to a wrap text
 	}
 	return c
@@ -707,7 +847,7 @@ func genCase(t *rapid.T) Case {
 				p.N = append([]int64{p.n(0)&^15 | int64(i)}, p.N[min(1, len(p.N)):]...)
 				p.S = append([]string{fmt.Sprintf("%s#%d", p.s(0), i)}, p.S[min(1, len(p.S)):]...)
 				ch.PB = &p
-			} else if ch.Embed >= 0 {
+			} else if ch.Embed >= 0 && ch.Obj != nil {
 				// distinct objects per error: the position in the batch goes into the object
 				o := *ch.Obj
 				o.N = o.N&^15 | int64(i)
